@@ -110,3 +110,16 @@ def compare_of(e, left_pred, right_pred):
 
 def text(e):
     return unparse(e) if e is not None else "None"
+
+
+def none_branch(e, label, is_subject):
+    """For a test expression e and the branch `label` taken: "none" if the branch implies the subject is None,
+    "notnone" if it implies it is not None, else None.  Handles `x is None`, `x is not None`, `x == None`, `not ...`,
+    and plain truthiness `if x:` / `if not x:` is NOT treated as a None test (returns None)."""
+    e, label = strip_not(e, label)
+    op = compare_of(e, is_subject, lambda x: is_const(x, None))
+    if op in (ast.Is, ast.Eq):
+        return "none" if label == "true" else "notnone"
+    if op in (ast.IsNot, ast.NotEq):
+        return "notnone" if label == "true" else "none"
+    return None
